@@ -25,7 +25,20 @@ def used_modules():
     return used
 
 
+def regenerate():
+    """Generated modules are committed; regenerate them deterministically so that SANY sees
+    what the checks will use (each generator is a no-op when its output is current)."""
+    import subprocess
+    for mod in ("vlib.schema_gen", "vlib.c15_table", "vlib.c04_table"):
+        path = os.path.join(ROOT, *mod.split(".")) + ".py"
+        if os.path.exists(path):
+            r = subprocess.run([sys.executable, "-m", mod], cwd=ROOT, stdout=subprocess.PIPE, stderr=subprocess.STDOUT, text=True,
+                               env=dict(os.environ, PYTHONPATH=ROOT + os.pathsep + "/repo"))
+            print("setup: %s rc=%d %s" % (mod, r.returncode, r.stdout.strip().splitlines()[-1][:120] if r.stdout.strip() else ""))
+
+
 def main():
+    regenerate()
     files = sorted(glob.glob(os.path.join(tlc.SPECS, "*.tla")))
     used = used_modules()
     bad = 0
